@@ -48,6 +48,12 @@ func UnpackRule(rule []string) (map[string]string, error) {
 	// Cache rule len
 	ruleLen := len(rule)
 
+	// An empty rule has no type token and fits none of the formats
+	if ruleLen == 0 {
+		return nil,
+			fmt.Errorf("%s Got:\n\t %s", errorMsg, rule)
+	}
+
 	// Create all lower rule copy to case-insensitively parse out tokens whose
 	// position we don't know yet. We keep the original rule to retain the
 	// non-token elements' case.
